@@ -236,7 +236,7 @@ def main(prop, tier, seed, args):
         "known_findings_hit": sorted(known_hit),
         "inconclusive": inconclusive[:20],
         "partial_run_filter": args.only,
-        "all_cases": [p["harness"] + ":" + p["verdict"] for p in per_case],
+        "all_cases": ["%s:%s:%ss" % (p["harness"], p["verdict"], int(p["time_s"]) if p.get("time_s") else "-") for p in per_case],
     }
     coverage.update(extra_cov)
     write_evidence(prop, tier, seed, plan.level, coverage, plan.assumptions, wall, len(confirmed))
